@@ -14,6 +14,7 @@ class G:
         self.meta = []   # (id, op, info dict)
         self.n = 0
         self.dist = {}
+        self.force_window = False
 
     # ---------- matrices as python ints per row ----------
     def rows_random(self, r, c, density=0.5):
@@ -131,7 +132,7 @@ class G:
     def place(self, window=None):
         rng = self.rng
         if window is None:
-            window = rng.random() < 0.5
+            window = True if self.force_window else rng.random() < 0.5
         if not window:
             return 'o'
         return 'w%d.%d.%d.%d.%d' % (rng.randint(0, 3), rng.randint(0, 3), rng.randint(0, 2), rng.randint(0, 2),
